@@ -27,7 +27,14 @@ func realStream(c *Ctx, file []byte) (stream []byte, isPem bool) {
 	f, err := os.Open(p)
 	mustNoErr(err)
 	defer f.Close()
-	_, isPem = pemreader.IsPemFile(f)
+	func() {
+		defer func() {
+			if r := recover(); r != nil {
+				isPem = false // the implementation's own sniffing panicked; the child-process observation reports that
+			}
+		}()
+		_, isPem = pemreader.IsPemFile(f)
+	}()
 	if !isPem {
 		return file, false
 	}
